@@ -723,10 +723,31 @@ func c02Cause(c *Ctx, r *Report) {
 					continue
 				}
 				ifi, ok := b.Instrs[len(b.Instrs)-1].(*ssa.If)
-				if !ok || ifi.Cond != ssa.Value(partial) {
+				if !ok {
 					continue
 				}
+				// `if partial`, or the same test spelled as a comparison with a constant
+				// (`switch partial { case true: ...`): swapped when the true edge means !partial
+				swapped := false
+				if ifi.Cond != ssa.Value(partial) {
+					bo, isB := ifi.Cond.(*ssa.BinOp)
+					if !isB || (bo.Op != token.EQL && bo.Op != token.NEQ) {
+						continue
+					}
+					x, y := bo.X, bo.Y
+					if y == ssa.Value(partial) {
+						x, y = y, x
+					}
+					k, isC := y.(*ssa.Const)
+					if x != ssa.Value(partial) || !isC || k.Value == nil || k.Value.Kind() != constant.Bool {
+						continue
+					}
+					swapped = constant.BoolVal(k.Value) != (bo.Op == token.EQL)
+				}
 				on := func(i int) bool {
+					if swapped {
+						i = 1 - i
+					}
 					if lf.from == nil {
 						blk := st.Block()
 						if len(arrivals) == 1 && arrivals[0].from == nil {
